@@ -1081,6 +1081,53 @@ def rule_leak_write(env, shared):
     return out
 
 
+def _field_takes(env, db, ctx, fi, path):
+    """ManuallyDrop take / drop / into_inner calls of `db` (outside cleanup) on field `fi` of the ADT `path`"""
+    takes = []
+    for bi, t, c in db.calls():
+        if db.blocks[bi]["cleanup"]:
+            continue
+        if c.key in ("std::mem::ManuallyDrop::take", "std::mem::ManuallyDrop::drop", "std::mem::ManuallyDrop::into_inner"):
+            a0 = env.ev.operand(ctx, t["args"][0])
+            root, fl = place_path(a0)
+            if any(x[0] == fi and x[2] == path for x in fl):
+                takes.append((bi, t, c))
+    return takes
+
+
+def _release_verdict(env, hb, hctx, fi, path):
+    """'ok' when every normal path of the helper `hb` takes field `fi` out of its ManuallyDrop and the taken value is dropped
+    (scope end or mem::drop) and never handed to a leak primitive; 'no' otherwise"""
+    takes = _field_takes(env, hb, hctx, fi, path)
+    if not takes:
+        return "no"
+    tb = {x[0] for x in takes}
+    exits = set(hb.exits())
+    if not any(e in tb for e in exits) and 0 not in tb and hb.paths_avoiding(0, exits, tb):
+        return "no"
+    okdrop = False
+    for (bi, t, c) in takes:
+        if c.key.endswith("ManuallyDrop::drop"):
+            okdrop = True
+            continue
+        al = _alias_locals(hb, t["dest"]["l"])
+        for bj, blk in enumerate(hb.blocks):
+            tt = blk["term"]
+            if blk["cleanup"]:
+                continue
+            if tt["k"] == "drop" and not tt["place"]["p"] and tt["place"]["l"] in al:
+                okdrop = True
+            if tt["k"] == "call":
+                c2 = hb.callee(bj)
+                if c2 and not c2.indirect and c2.key == "std::mem::drop" and any(
+                        ao["k"] in ("move", "copy") and not ao["place"]["p"] and ao["place"]["l"] in al for ao in tt["args"]):
+                    okdrop = True
+                if c2 and not c2.indirect and c2.key in LEAK_PRIMS and any(
+                        ao["k"] in ("move", "copy") and not ao["place"]["p"] and ao["place"]["l"] in al for ao in tt["args"]):
+                    return "no"
+    return "ok" if okdrop else "no"
+
+
 def rule_leak(env, shared):
     """LEAK: every ManuallyDrop field that owns heap memory is released on every path of Drop::drop; leak primitives are
     used only in the justified places (constructors wrapping the collection, the remainder split's re-wrap)."""
@@ -1108,21 +1155,29 @@ def rule_leak(env, shared):
             db = F.bodies[dfn]
             ctx = env.ctx(db, path, env.world_of(path))
             # take / drop events on that field, directly in Drop::drop
-            takes = []
+            takes = _field_takes(env, db, ctx, fi, path)
+            # ... or in a private release helper that Drop hands itself to: the helper must release on every one of its
+            # own paths (judged like Drop); its call then counts as the release
+            helper_calls = set()
             for bi, t, c in db.calls():
-                if db.blocks[bi]["cleanup"]:
+                if db.blocks[bi]["cleanup"] or c.indirect or not t["args"]:
                     continue
-                if c.key in ("std::mem::ManuallyDrop::take", "std::mem::ManuallyDrop::drop", "std::mem::ManuallyDrop::into_inner"):
-                    a0 = ev.operand(ctx, t["args"][0])
-                    root, fl = place_path(a0)
-                    if any(x[0] == fi and x[2] == path for x in fl):
-                        takes.append((bi, t, c))
-            if not takes:
+                hd = F.resolve_callee(c, path, None)
+                hb = F.bodies.get(hd) if hd else None
+                if hb is None or hb is db or hb.is_closure:
+                    continue
+                a0 = ev.operand(ctx, t["args"][0])
+                if place_path(unref(a0))[0] != ("param", 1) or place_path(unref(a0))[1]:
+                    continue
+                hctx = env.ctx(hb, path, env.world_of(path))
+                if _release_verdict(env, hb, hctx, fi, path) == "ok":
+                    helper_calls.add(bi)
+            if not takes and not helper_calls:
                 out.append(Ob("LEAK", k, "viol", db.file_line(),
                               "Drop of %s never takes `%s` out of its ManuallyDrop: the allocation of the consumed collection "
                               "is never freed" % (nm, f["name"])))
                 continue
-            tb = {x[0] for x in takes}
+            tb = {x[0] for x in takes} | helper_calls
             exits = set(db.exits())
             if any(e in tb for e in exits):
                 bypass = False
@@ -1134,7 +1189,7 @@ def rule_leak(env, shared):
                 continue
             # the taken value must be dropped (scope end) and not forgotten / re-wrapped
             bad = None
-            okdrop = False
+            okdrop = bool(helper_calls)
             for (bi, t, c) in takes:
                 if c.key.endswith("ManuallyDrop::drop"):
                     okdrop = True
@@ -1327,6 +1382,11 @@ def rule_pre(env, shared):
                         if s["k"] == "assign" and s["place"]["p"] and s["place"]["p"][0]["k"] == "deref" \
                                 and "ManuallyDrop::new" in fmt(env.ev.rvalue(e.ctx, s["rv"])) and bi2 in body.reachable(e.bb):
                             rewrapped = True
+                if not is_drop and not rewrapped and not body.is_closure:
+                    sites = env.callers_of(body.def_, [(b2, None) for b2 in F.non_test_bodies()])
+                    is_drop = bool(sites) and all(
+                        (b2.info or {}).get("name") == "drop" and "Drop" in ((b2.info or {}).get("trait") or "")
+                        and not b2.is_closure for b2, _, _ in sites)
                 okk = is_drop or rewrapped
                 put(Ob("PRE", key, "ok" if okk else "viol", e.loc(),
                        ("taken in Drop: the slot is never used again" if is_drop else
